@@ -189,11 +189,42 @@ fn sig_name(c: char) -> &'static str {
     }
 }
 
+/// Scale probe (see probes.rs): diff and change reports over a version of 10 015 index hunks.
+fn enumerate(_tier: Tier, idx: u32, of: u32, cx: &mut Cx) -> CaseResult {
+    if !crate::probes::mine(idx, of) {
+        return Ok(());
+    }
+    let (opts, tree) = crate::probes::many_hunks_tree(10_012);
+    let m = crate::probes::plain_meta();
+    let edits = vec![
+        Edit::Touch { idx: 30_000, mtime_s: 1_600_000_000, mtime_ns: 5 },
+        Edit::Touch { idx: 32_690, mtime_s: 1_600_000_001, mtime_ns: 0 },
+        Edit::Modify { idx: 65_000, pool: 1, dlen: 2, mtime_s: 1_600_000_002, mtime_ns: 0 },
+        Edit::Remove { idx: 50_000 },
+        Edit::Remove { idx: 20 },
+        Edit::AddFile { dir: 0xFFFF, name: "zz-added".into(), pool: 3, len: 40, meta: m },
+        Edit::AddFile { dir: 0x9000, name: "a-added".into(), pool: 4, len: 41, meta: m },
+        Edit::Chmod { idx: 10_000, mode: 0o600 },
+    ];
+    let sub = cx.dir("many-hunks");
+    std::fs::create_dir_all(&sub).unwrap();
+    let mut cx2 = crate::engine::sub_cx(cx, sub.clone());
+    crate::engine::heartbeat();
+    run(&Case { opts, opts2: ops::Opts { hunk: 500, ..opts }, tree, edits }, &mut cx2).map_err(|mut f| {
+        f.signature = format!("{}/probe-many-hunks", f.signature);
+        f
+    })?;
+    crate::engine::force_remove(&sub);
+    cx.add_evals(4);
+    cx.inner_nontrivial += 1;
+    Ok(())
+}
+
 pub fn prop() -> Prop<Case> {
     Prop {
         id: "C18",
         level: "exploration",
-        rule: "case = (options, tree T0, 0-7 edits over add/modify(content+mtime)/touch(mtime only)/remove/rename/chmod/chown/kind swap/retarget, options2); oracle = model diff from the statement (added/deleted by path set; changed iff kind, owner or mode differ, or for files size or mtime, or for symlinks the target; directory and symlink mtimes are not changes): diff(stored T0, unmodified source) is empty; diff(stored T0, T1) equals the model diff entry-for-entry in path order with and without include_unchanged; the next backup's change callback reports exactly one added/changed/unchanged for every file of T1 and one deleted for every file of T0 that is gone. Non-trivial = the edit set yields at least one added, one deleted, one changed entry and one unchanged file; distinct by case hash",
+        rule: "case = (options, tree T0, 0-7 edits over add/modify(content+mtime)/touch(mtime only)/remove/rename/chmod/chown/kind swap/retarget, options2); oracle = model diff from the statement (added/deleted by path set; changed iff kind, owner or mode differ, or for files size or mtime, or for symlinks the target; directory and symlink mtimes are not changes): diff(stored T0, unmodified source) is empty; diff(stored T0, T1) equals the model diff entry-for-entry in path order with and without include_unchanged; the next backup's change callback reports exactly one added/changed/unchanged for every file of T1 and one deleted for every file of T0 that is gone. Non-trivial = the edit set yields at least one added, one deleted, one changed entry and one unchanged file; distinct by case hash; plus one fixed scale probe (eight edits against a version of 10 015 index hunks)",
         assumptions: &[
             "same-size same-mtime content edits are not generated (outside the documented heuristic)",
             "file<->dir/symlink swaps are exempt on the callback side (the callback is silent for non-file kinds)",
@@ -201,7 +232,7 @@ pub fn prop() -> Prop<Case> {
         cases: |t| t.pick(2000, 100_000),
         strategy,
         run,
-        enumerate: None,
+        enumerate: Some(enumerate),
         exhaustive: |_| false,
         max_shrink_iters: 400,
     }
